@@ -37,7 +37,7 @@ BASE_WEIGHTS = {'train_step': 4, 'backward_only': 0.7, 'opt_step': 0.7, 'forward
 
 
 def budget(tier):
-    return {'runs': 2500, 'seconds': 75} if tier == 'quick' else {'runs': 200000, 'seconds': 1500}
+    return {'runs': 4000, 'seconds': 75} if tier == 'quick' else {'runs': 200000, 'seconds': 1500}
 
 
 def generate(seed, run, tier):
